@@ -23,6 +23,12 @@ type DeepReach struct {
 // callees (transitively, bounded) that live in the same package, are not exported, have a body and
 // are not recursive back into the set's root.
 func Helpers(fn *ssa.Function, maxDepth int) map[*ssa.Function]bool {
+	return HelpersExcept(fn, maxDepth, nil)
+}
+
+// HelpersExcept is Helpers that neither includes nor descends into the functions for which stop
+// reports true.
+func HelpersExcept(fn *ssa.Function, maxDepth int, stop func(*ssa.Function) bool) map[*ssa.Function]bool {
 	out := map[*ssa.Function]bool{fn: true}
 	var walk func(f *ssa.Function, d int)
 	walk = func(f *ssa.Function, d int) {
@@ -40,7 +46,7 @@ func Helpers(fn *ssa.Function, maxDepth int) map[*ssa.Function]bool {
 					}
 				}
 			}
-			if g == nil || out[g] || len(g.Blocks) == 0 {
+			if g == nil || out[g] || len(g.Blocks) == 0 || (stop != nil && stop(g)) {
 				return
 			}
 			if fp, gp := FuncPkg(fn), FuncPkg(g); fp == nil || gp == nil || fp.Path() != gp.Path() {
